@@ -4,7 +4,8 @@ It stands in for Go's `regexp.MatchString(re, s)` (unanchored search) and for a 
 match of one segment, on the syntax subset the generators use:
 
   literals, `\` escapes (`\d \w \s` and escaped punctuation), `.`, classes `[a-z0-9_]`
-  and negated classes `[^…]`, groups `( )`, alternation `|`, postfix `* + ?`,
+  and negated classes `[^…]`, groups `( )`, alternation `|`, postfix `* + ?` and the counted
+  repetitions `{n}`, `{n,}`, `{n,m}`,
   `^` at the very beginning and `$` at the very end.
 
 Anything else makes `parse` return `none`; Go's `regexp.MatchString` returns an error for
@@ -109,6 +110,38 @@ def parseClass : Nat → Str → List (Char × Char) → Option (List (Char × C
   | fuel + 1, a :: rest, acc =>
     if a == '[' then none else parseClass fuel rest ((a, a) :: acc)
 
+/-- `a` exactly `n` times -/
+def rep (a : RE) : Nat → RE
+  | 0 => RE.eps
+  | n + 1 => RE.seq a (rep a n)
+
+/-- `a` at most `n` times: `(a(a(…)?)?)?` -/
+def repOpt (a : RE) : Nat → RE
+  | 0 => RE.eps
+  | n + 1 => RE.alt RE.eps (RE.seq a (repOpt a n))
+
+def isDigit (c : Char) : Bool := '0' ≤ c && c ≤ '9'
+
+def natOf (ds : Str) : Nat := ds.foldl (fun n c => 10 * n + (c.toNat - '0'.toNat)) 0
+
+/-- the counted repetition after `{`: `n}`, `n,}` or `n,m}` (Go: both at most 1000, `n ≤ m`); gives
+    the expression for atom `a` and the text after `}`; `none` = not a repetition -/
+def parseCount (a : RE) (s : Str) : Option (RE × Str) :=
+  let ds := s.takeWhile isDigit
+  let n := natOf ds
+  if ds.isEmpty || n > 1000 then none else
+  match s.dropWhile isDigit with
+  | '}' :: rest => some (rep a n, rest)
+  | ',' :: '}' :: rest => some (RE.seq (rep a n) (RE.star a), rest)
+  | ',' :: more =>
+    let ms := more.takeWhile isDigit
+    let m := natOf ms
+    if ms.isEmpty || m > 1000 || m < n then none else
+    match more.dropWhile isDigit with
+    | '}' :: rest => some (RE.seq (rep a n) (repOpt a (m - n)), rest)
+    | _ => none
+  | _ => none
+
 mutual
 /-- alternation level; stops at `)` or end of input -/
 def parseAlt : Nat → Str → Option (RE × Str)
@@ -169,6 +202,10 @@ def parsePostfix : Nat → RE → Str → RE × Str
   | fuel + 1, a, '*' :: rest => parsePostfixDone fuel (RE.star a) rest
   | fuel + 1, a, '+' :: rest => parsePostfixDone fuel (RE.seq a (RE.star a)) rest
   | fuel + 1, a, '?' :: rest => parsePostfixDone fuel (RE.alt a RE.eps) rest
+  | fuel + 1, a, '{' :: rest =>
+    match parseCount a rest with
+    | some (r, rest') => parsePostfixDone fuel r rest'
+    | none => (a, '{' :: rest)
   | _ + 1, a, s => (a, s)
 
 /-- a lazy marker `?` after a quantifier does not change the language -/
